@@ -6,7 +6,7 @@ mkdir -p /tmp/seedchk_ev /tmp/seedchk_rp
 fail=0
 for d in seeded/*/; do
   sid=$(basename "$d")
-  prop=$(python3 -c "import json;print(json.load(open('$d/meta.json'))['breaks_property'])")
+  prop=$(python3 -c "import json;print(json.load(open('$d/meta.json'))['breaks_property'] if 'checked_by' not in json.load(open('$d/meta.json')) else json.load(open('$d/meta.json'))['checked_by'])")
   wt=/tmp/seedchk_$sid
   git -C /repo worktree add -q "$wt" HEAD || { echo "$sid: cannot create worktree"; fail=1; continue; }
   if ! git -C "$wt" apply "$PWD/$d/patch.diff" 2>/dev/null; then
